@@ -325,4 +325,629 @@ theorem NmIndexes.variableNames (h : NmIndexes m names) (hn : names.Nodup) :
 
 end NmIndexesFacts
 
+/-! ### system, species map -/
+section Sys
+variable {α : Type}
+
+theorem SystemDecl.stateSize_eq (s : SystemDecl α) : s.stateSize = s.uniqueNames.length := by
+  unfold SystemDecl.stateSize SystemDecl.uniqueNames phaseUnique
+  simp [List.length_flatMap, Function.comp_def]
+
+def reorderNames (names : List String) (perm : Array Nat) : List String :=
+  (List.range names.length).map fun i => names.getD (perm.getD i 0) ""
+
+def jacPattern (n : Nat) (t : PSTables α) : IMat :=
+  t.nonZeroJacobianElements.foldl (fun p e => p.set e.1 e.2 1) (Array.replicate n (Array.replicate n 0))
+
+theorem getSpeciesMap_false (sys : SystemDecl α) (procs : List (Process α)) :
+    getSpeciesMap sys procs false = .ok (nmOfNames sys.uniqueNames) := rfl
+
+theorem getSpeciesMap_true (sys : SystemDecl α) (procs : List (Process α)) :
+    getSpeciesMap sys procs true =
+      match ProcessSet.build procs (nmOfNames sys.uniqueNames) with
+      | .error e => .error e.toErr
+      | .ok t => match markowitz sys.stateSize (jacPattern sys.stateSize t) with
+        | .error e => .error e
+        | .ok perm => .ok (nmInsertAll (nmOfNames sys.uniqueNames) (reorderNames sys.uniqueNames perm).zipIdx) := by
+  unfold getSpeciesMap
+  simp only [jacPattern, reorderNames, nmInsertAll, Bool.not_true, Bool.false_eq_true, if_false]
+  cases ProcessSet.build procs (nmOfNames sys.uniqueNames) with
+  | error e => rfl
+  | ok t =>
+    simp only [Except.mapError]
+    show (do let perm ← markowitz _ _; _) = _
+    cases markowitz sys.stateSize (List.foldl (fun p e => p.set e.fst e.snd 1)
+              (Array.replicate sys.stateSize (Array.replicate sys.stateSize 0)) t.nonZeroJacobianElements) with
+    | error e => rfl
+    | ok perm => rfl
+
+theorem map_getD_range (l : List String) (d : String) :
+    (List.range l.length).map (fun i => l.getD i d) = l := by
+  apply List.ext_getElem
+  · simp
+  · intro i h1 h2
+    simp [h2]
+
+theorem map_getD_range_array (a : Array Nat) :
+    (List.range a.size).map (fun i => a.getD i 0) = a.toList := by
+  apply List.ext_getElem
+  · simp
+  · intro i h1 h2
+    simp only [List.length_map, List.length_range] at h1
+    simp [Array.getD, h1]
+
+theorem reorderNames_eq (names : List String) (perm : Array Nat) (hs : perm.size = names.length) :
+    reorderNames names perm = perm.toList.map fun j => names.getD j "" := by
+  unfold reorderNames
+  rw [← map_getD_range_array, List.map_map, hs]
+  rfl
+
+theorem reorderNames_perm (names : List String) (perm : Array Nat) (hs : perm.size = names.length)
+    (hp : perm.toList.Perm (List.range names.length)) : (reorderNames names perm).Perm names := by
+  rw [reorderNames_eq names perm hs]
+  have := hp.map fun j => names.getD j ""
+  rw [map_getD_range] at this
+  exact this
+
+/-- what a successful `getSpeciesMap` returns (distinct unique names) -/
+theorem getSpeciesMap_ok_indexes {sys : SystemDecl α} {procs : List (Process α)} {reorder : Bool} {m : NameMap}
+    (h : getSpeciesMap sys procs reorder = .ok m) (hn : sys.uniqueNames.Nodup) :
+    ∃ names', names'.Perm sys.uniqueNames ∧ NmIndexes m names' ∧
+      (reorder = false → names' = sys.uniqueNames) ∧
+      (reorder = true → ∃ t perm, ProcessSet.build procs (nmOfNames sys.uniqueNames) = .ok t ∧
+        markowitz sys.stateSize (jacPattern sys.stateSize t) = .ok perm ∧
+        perm.size = sys.uniqueNames.length ∧ perm.toList.Perm (List.range sys.uniqueNames.length) ∧
+        names' = reorderNames sys.uniqueNames perm) := by
+  cases reorder with
+  | false =>
+    rw [getSpeciesMap_false] at h
+    cases h
+    exact ⟨_, List.Perm.refl _, NmIndexes.nmOfNames hn, (fun _ => rfl), (fun h => by cases h)⟩
+  | true =>
+    rw [getSpeciesMap_true] at h
+    cases hb : ProcessSet.build procs (nmOfNames sys.uniqueNames) with
+    | error e => rw [hb] at h; cases h
+    | ok t =>
+      rw [hb] at h
+      simp only [] at h
+      by_cases h0 : sys.stateSize = 0
+      · rw [h0] at h; cases h
+      · obtain ⟨perm, hm, hs, hp⟩ := markowitz_perm sys.stateSize (jacPattern sys.stateSize t) (by omega)
+        rw [hm] at h
+        cases h
+        rw [sys.stateSize_eq] at hs hp
+        have hperm := reorderNames_perm _ perm hs hp
+        refine ⟨_, hperm, ?_, (fun h => by cases h), (fun _ => ⟨t, perm, rfl, hm, hs, hp, rfl⟩)⟩
+        apply NmIndexes.of_insertAll (NmIndexes.nmOfNames hn).sorted
+        · intro k hk
+          exact hperm.mem_iff.2 (((NmIndexes.nmOfNames hn).keys k).1 hk)
+        · exact hperm.nodup_iff.2 hn
+
+theorem mem_nmKeys_nmOfNames (names : List String) (k : String) : k ∈ nmKeys (nmOfNames names) ↔ k ∈ names := by
+  rw [nmOfNames_eq, mem_nmKeys_nmInsertAll, map_fst_zipIdx]
+  simp [nmKeys]
+
+/-- the key set of a successful `getSpeciesMap` (no distinctness needed) -/
+theorem getSpeciesMap_ok_keys {sys : SystemDecl α} {procs : List (Process α)} {reorder : Bool} {m : NameMap}
+    (h : getSpeciesMap sys procs reorder = .ok m) : ∀ k, k ∈ nmKeys m ↔ k ∈ sys.uniqueNames := by
+  intro k
+  cases reorder with
+  | false =>
+    rw [getSpeciesMap_false] at h
+    cases h
+    exact mem_nmKeys_nmOfNames _ k
+  | true =>
+    rw [getSpeciesMap_true] at h
+    cases hb : ProcessSet.build procs (nmOfNames sys.uniqueNames) with
+    | error e => rw [hb] at h; cases h
+    | ok t =>
+      rw [hb] at h
+      simp only [] at h
+      by_cases h0 : sys.stateSize = 0
+      · rw [h0] at h; cases h
+      · obtain ⟨perm, hm, hs, hp⟩ := markowitz_perm sys.stateSize (jacPattern sys.stateSize t) (by omega)
+        rw [hm] at h
+        cases h
+        rw [sys.stateSize_eq] at hs hp
+        have hperm := reorderNames_perm _ perm hs hp
+        rw [mem_nmKeys_nmInsertAll, map_fst_zipIdx, mem_nmKeys_nmOfNames, hperm.mem_iff, or_self]
+
+end Sys
+
+/-! ### tolerances -/
+section Tol
+variable {α : Type}
+
+def specAssigns (key : String → String) (sp : List (SpeciesDecl α)) : List (String × α) :=
+  sp.filterMap fun s => s.atol.map fun v => (key s.name, v)
+
+/-- the tolerance assignments in execution order -/
+def tolAssigns (sys : SystemDecl α) : List (String × α) :=
+  specAssigns id sys.gas ++ sys.phases.flatMap fun ph => specAssigns (fun n => ph.1 ++ "." ++ n) ph.2
+
+def applyTol [OfNat α 0] (m : NameMap) : Array α → List (String × α) → Except Err (Array α)
+  | tol, [] => .ok tol
+  | tol, kv :: l => match nmLookup m kv.1 with
+    | some i => applyTol m (wr tol i kv.2) l
+    | none => .error .outOfRange
+
+theorem specAssigns_keys_sublist (key : String → String) (sp : List (SpeciesDecl α))
+    (h : ∀ s ∈ sp, s.atol.isSome = true → s.param = false) :
+    ((specAssigns key sp).map (·.1)).Sublist ((phaseUnique sp).map key) := by
+  induction sp with
+  | nil => exact List.Sublist.slnil
+  | cons s sp ih =>
+    have ih := ih fun s' hs' => h s' (List.mem_cons_of_mem _ hs')
+    unfold specAssigns phaseUnique at ih ⊢
+    rw [List.filterMap_cons, List.filter_cons]
+    cases ha : s.atol with
+    | none =>
+      simp only [Option.map_none]
+      cases hp : s.param with
+      | true => simpa using ih
+      | false => simpa using List.Sublist.cons (key s.name) ih
+    | some v =>
+      have hp : s.param = false := h s List.mem_cons_self (by simp [ha])
+      simpa [hp] using List.Sublist.cons_cons (key s.name) ih
+
+/-- the species carrying a tolerance are non-parameterized -/
+def TolOnNonParam (sys : SystemDecl α) : Prop :=
+  (∀ s ∈ sys.gas, s.atol.isSome = true → s.param = false) ∧
+  ∀ ph ∈ sys.phases, ∀ s ∈ ph.2, s.atol.isSome = true → s.param = false
+
+theorem tolAssigns_keys_sublist (sys : SystemDecl α) (h : TolOnNonParam sys) :
+    ((tolAssigns sys).map (·.1)).Sublist sys.uniqueNames := by
+  unfold tolAssigns SystemDecl.uniqueNames
+  rw [List.map_append]
+  apply List.Sublist.append
+  · have := specAssigns_keys_sublist id sys.gas h.1
+    simpa using this
+  · have h2 := h.2
+    generalize sys.phases = phs at h2
+    induction phs with
+    | nil => exact List.Sublist.slnil
+    | cons ph phs ih =>
+      rw [List.flatMap_cons, List.flatMap_cons, List.map_append]
+      apply List.Sublist.append
+      · exact specAssigns_keys_sublist _ ph.2 (h2 ph List.mem_cons_self)
+      · exact ih fun ph' hph' => h2 ph' (List.mem_cons_of_mem _ hph')
+
+theorem mem_tolAssigns {sys : SystemDecl α} {kv : String × α} :
+    kv ∈ tolAssigns sys ↔
+      (∃ s ∈ sys.gas, s.atol = some kv.2 ∧ kv.1 = s.name) ∨
+      (∃ ph ∈ sys.phases, ∃ s ∈ ph.2, s.atol = some kv.2 ∧ kv.1 = ph.1 ++ "." ++ s.name) := by
+  unfold tolAssigns specAssigns
+  simp only [List.mem_append, List.mem_filterMap, List.mem_flatMap, Option.map_eq_some_iff, id]
+  constructor
+  · rintro (⟨s, hs, v, hv, rfl⟩ | ⟨ph, hph, s, hs, v, hv, rfl⟩)
+    · exact .inl ⟨s, hs, hv, rfl⟩
+    · exact .inr ⟨ph, hph, s, hs, hv, rfl⟩
+  · rintro (⟨s, hs, hv, hk⟩ | ⟨ph, hph, s, hs, hv, hk⟩)
+    · exact .inl ⟨s, hs, kv.2, hv, by rw [← hk]⟩
+    · exact .inr ⟨ph, hph, s, hs, kv.2, hv, by rw [← hk]⟩
+
+variable [OfNat α 0]
+
+theorem applyTol_append (m : NameMap) (tol : Array α) (l1 l2 : List (String × α)) :
+    applyTol m tol (l1 ++ l2) = (applyTol m tol l1 >>= fun t => applyTol m t l2) := by
+  induction l1 generalizing tol with
+  | nil => rfl
+  | cons kv l ih =>
+    simp only [List.cons_append, applyTol]
+    cases nmLookup m kv.1 with
+    | none => rfl
+    | some i => exact ih _
+
+theorem foldlM_species (m : NameMap) (key : String → String) (sp : List (SpeciesDecl α)) (tol : Array α) :
+    sp.foldlM (fun tol s =>
+      match s.atol with
+      | none => pure tol
+      | some v => match nmLookup m (key s.name) with
+        | some i => pure (wr tol i v)
+        | none => throw Err.outOfRange) tol = applyTol m tol (specAssigns key sp) := by
+  induction sp generalizing tol with
+  | nil => rfl
+  | cons s sp ih =>
+    rw [List.foldlM_cons]
+    unfold specAssigns
+    rw [List.filterMap_cons]
+    cases ha : s.atol with
+    | none => simp only [Option.map_none]; exact ih tol
+    | some v =>
+      simp only [Option.map_some, applyTol]
+      cases nmLookup m (key s.name) with
+      | none => rfl
+      | some i => exact ih _
+
+theorem setAbsoluteTolerances_eq (dflt : α) (sys : SystemDecl α) (m : NameMap) :
+    setAbsoluteTolerances dflt sys m = applyTol m (Array.replicate m.length dflt) (tolAssigns sys) := by
+  unfold setAbsoluteTolerances tolAssigns
+  rw [applyTol_append]
+  simp only []
+  erw [foldlM_species m id]
+  congr 1
+  funext tol
+  induction sys.phases generalizing tol with
+  | nil => rfl
+  | cons ph phs ih =>
+    rw [List.foldlM_cons, List.flatMap_cons, applyTol_append]
+    erw [foldlM_species m (fun n => ph.1 ++ "." ++ n)]
+    congr 1
+    funext t
+    exact ih t
+
+theorem applyTol_size {m : NameMap} {tol r : Array α} {l : List (String × α)}
+    (h : applyTol m tol l = .ok r) : r.size = tol.size := by
+  induction l generalizing tol with
+  | nil => cases h; rfl
+  | cons kv l ih =>
+    unfold applyTol at h
+    cases hl : nmLookup m kv.1 with
+    | none => rw [hl] at h; cases h
+    | some i => rw [hl] at h; rw [ih h, wr_size]
+
+theorem applyTol_error {m : NameMap} {tol : Array α} {l : List (String × α)} {e : Err}
+    (h : applyTol m tol l = .error e) : e = .outOfRange := by
+  induction l generalizing tol with
+  | nil => cases h
+  | cons kv l ih =>
+    unfold applyTol at h
+    cases hl : nmLookup m kv.1 with
+    | none => rw [hl] at h; cases h; rfl
+    | some i => rw [hl] at h; exact ih h
+
+theorem applyTol_isOk_iff (m : NameMap) (tol : Array α) (l : List (String × α)) :
+    (∃ r, applyTol m tol l = .ok r) ↔ ∀ kv ∈ l, kv.1 ∈ nmKeys m := by
+  induction l generalizing tol with
+  | nil => exact ⟨(fun _ _ h => by cases h), (fun _ => ⟨tol, rfl⟩)⟩
+  | cons kv l ih =>
+    unfold applyTol
+    cases hl : nmLookup m kv.1 with
+    | none =>
+      have : kv.1 ∉ nmKeys m := (nmLookup_eq_none_iff m _).1 hl
+      constructor
+      · rintro ⟨r, h⟩; cases h
+      · intro h; exact absurd (h kv List.mem_cons_self) this
+    | some i =>
+      have : kv.1 ∈ nmKeys m := (nmLookup_isSome_iff m _).1 (by simp [hl])
+      simp only []
+      rw [ih]
+      constructor
+      · intro h kv' hkv'
+        rcases List.mem_cons.1 hkv' with h' | h'
+        · rw [h']; exact this
+        · exact h kv' h'
+      · intro h kv' hkv'
+        exact h kv' (List.mem_cons_of_mem _ hkv')
+
+/-- an index no assignment maps to keeps its value -/
+theorem applyTol_rd_of_not_mem {m : NameMap} {tol r : Array α} {l : List (String × α)} {i : Nat}
+    (h : applyTol m tol l = .ok r) (hi : ∀ kv ∈ l, nmLookup m kv.1 ≠ some i) : rd r i = rd tol i := by
+  induction l generalizing tol with
+  | nil => cases h; rfl
+  | cons kv l ih =>
+    unfold applyTol at h
+    cases hl : nmLookup m kv.1 with
+    | none => rw [hl] at h; cases h
+    | some j =>
+      rw [hl] at h
+      have hj : j ≠ i := fun hji => hi kv List.mem_cons_self (by rw [hl, hji])
+      rw [ih h fun kv' hkv' => hi kv' (List.mem_cons_of_mem _ hkv'), rd_wr_ne _ _ _ _ hj]
+
+/-- the last assignment to an index wins -/
+theorem applyTol_rd_last {m : NameMap} {tol r : Array α} {l1 l2 : List (String × α)} {k : String} {v : α} {i : Nat}
+    (h : applyTol m tol (l1 ++ (k, v) :: l2) = .ok r) (hk : nmLookup m k = some i) (hi : i < tol.size)
+    (h2 : ∀ kv ∈ l2, nmLookup m kv.1 ≠ some i) : rd r i = v := by
+  rw [applyTol_append] at h
+  cases h1 : applyTol m tol l1 with
+  | error e => rw [h1] at h; cases h
+  | ok t1 =>
+    rw [h1] at h
+    have h' : applyTol m t1 ((k, v) :: l2) = .ok r := h
+    unfold applyTol at h'
+    simp only [hk] at h'
+    rw [applyTol_rd_of_not_mem h' h2, rd_wr_same]
+    rw [applyTol_size h1]; exact hi
+
+
+end Tol
+
+/-! ### `build` as a decision tree -/
+section Build
+variable {α : Type}
+
+set_option linter.unusedSimpArgs false in
+theorem build_eq [OfNat α 0] (dflt : α) (labelsOf : List (Process α) → List String) (b : BuildInput α) :
+    build dflt labelsOf b =
+      match b.system with
+      | none => .error (.sys catBuilder 2)
+      | some sys =>
+        if (b.reactions.getD []).isEmpty then .error (.sys catBuilder 3)
+        else if sys.stateSize = 0 then .error (.sys catBuilder 4)
+        else match getSpeciesMap sys (b.reactions.getD []) b.reorder with
+          | .error e => .error e
+          | .ok m =>
+            if (!b.ignoreUnused && sys.uniqueNames.any fun s => !(speciesUsed (b.reactions.getD [])).contains s)
+            then .error (.sys catBuilder 1)
+            else match ProcessSet.build (b.reactions.getD []) m with
+              | .error e => .error e.toErr
+              | .ok t => match setAbsoluteTolerances dflt sys m with
+                | .error e => .error e
+                | .ok atol => .ok { speciesMap := m,
+                                    variableNames := (List.range sys.stateSize).map fun i => ((m.find? (·.2 == i)).map (·.1)).getD "",
+                                    nSpecies := sys.stateSize, labels := labelsOf (b.reactions.getD []),
+                                    tables := t, nonZero := t.nonZeroJacobianElements, atol := atol } := by
+  unfold build
+  cases b.system with
+  | none => rfl
+  | some sys =>
+    simp only []
+    by_cases h1 : (b.reactions.getD []).isEmpty = true
+    · simp only [h1, if_true]; rfl
+    · simp only [h1]
+      by_cases h2 : sys.stateSize = 0
+      · simp only [h2, if_true]; rfl
+      · simp only [h2, if_false]
+        simp only [Bool.false_eq_true, if_false]
+        generalize getSpeciesMap sys (b.reactions.getD []) b.reorder = r
+        cases r with
+        | error e => rfl
+        | ok m =>
+          generalize (sys.uniqueNames.any fun s => !(speciesUsed (b.reactions.getD [])).contains s) = u
+          show (if (!b.ignoreUnused) = true then (if u = true then _ else _) else _ : Except Err (Built α)) = _
+          cases b.ignoreUnused <;> cases u
+          all_goals
+            simp only [Bool.not_true, Bool.not_false, Bool.and_true, Bool.and_false, Bool.false_and, Bool.true_and,
+              Bool.false_eq_true, if_false, if_true]
+          all_goals
+            first
+            | rfl
+            | (show (do let t ← Except.mapError PSErr.toErr (ProcessSet.build (b.reactions.getD []) m); _) = _
+               generalize ProcessSet.build (b.reactions.getD []) m = r2
+               cases r2 with
+               | error e => rfl
+               | ok t =>
+                 simp only [Except.mapError]
+                 show (do let atol ← setAbsoluteTolerances dflt sys m; _) = _
+                 generalize setAbsoluteTolerances dflt sys m = r3
+                 cases r3 <;> rfl)
+
+/-- the errors of all non-parameterized reactant / product names that are not in `names`, in source
+    order (processes in order; within a process reactants before products) -/
+def unknownIn (names : List String) (procs : List (Process α)) : List PSErr :=
+  procs.flatMap fun p =>
+    (p.reactants.filterMap fun r =>
+      if !r.param && !names.contains r.name then some (PSErr.reactantDoesNotExist r.name) else none) ++
+    (p.products.filterMap fun q =>
+      if !q.1.param && !names.contains q.1.name then some (PSErr.productDoesNotExist q.1.name) else none)
+
+theorem unknownNames_eq_unknownIn {m : NameMap} {names : List String} (hk : ∀ k, k ∈ nmKeys m ↔ k ∈ names)
+    (procs : List (Process α)) : unknownNames m procs = unknownIn names procs := by
+  have key : ∀ k, (nmLookup m k).isNone = !names.contains k := by
+    intro k
+    by_cases h : k ∈ names
+    · have := (nmLookup_isSome_iff m k).2 ((hk k).2 h)
+      cases hl : nmLookup m k <;> simp_all
+    · have := (nmLookup_eq_none_iff m k).2 (fun h' => h ((hk k).1 h'))
+      simp [this, h]
+  unfold unknownNames unknownIn unknownReactants unknownProducts
+  congr 1
+  funext p
+  congr 1
+  · congr 1
+    funext r
+    rw [key]
+    cases r.param <;> cases names.contains r.name <;> rfl
+  · congr 1
+    funext r
+    rw [key]
+    cases r.1.param <;> cases names.contains r.1.name <;> rfl
+
+theorem unknownIn_eq_nil_iff (names : List String) (procs : List (Process α)) :
+    unknownIn names procs = [] ↔
+      ∀ p ∈ procs, (∀ r ∈ p.reactants, r.param = false → r.name ∈ names) ∧
+                   (∀ q ∈ p.products, q.1.param = false → q.1.name ∈ names) := by
+  unfold unknownIn
+  simp only [List.flatMap_eq_nil_iff, List.append_eq_nil_iff, List.filterMap_eq_nil_iff]
+  constructor
+  · intro h p hp
+    refine ⟨fun r hr hpar => ?_, fun q hq hpar => ?_⟩
+    · have := (h p hp).1 r hr
+      simpa [hpar] using this
+    · have := (h p hp).2 q hq
+      simpa [hpar] using this
+  · intro h p hp
+    refine ⟨fun r hr => ?_, fun q hq => ?_⟩
+    · cases hpar : r.param
+      · simpa [hpar] using (h p hp).1 r hr hpar
+      · simp
+    · cases hpar : q.1.param
+      · simpa [hpar] using (h p hp).2 q hq hpar
+      · simp
+
+theorem PSErr.toErr_cases (e : PSErr) : e.toErr = .sys catProcessSet 1 ∨ e.toErr = .sys catProcessSet 2 := by
+  cases e
+  · exact .inl rfl
+  · exact .inr rfl
+
+/-- the outcome of `build` (`none` = success), in the order in which the source performs the checks -/
+def buildOutcome (b : BuildInput α) : Option Err :=
+  match b.system with
+  | none => some (.sys catBuilder 2)
+  | some sys =>
+    if (b.reactions.getD []).isEmpty then some (.sys catBuilder 3)
+    else if sys.stateSize = 0 then some (.sys catBuilder 4)
+    else match (if b.reorder then (unknownIn sys.uniqueNames (b.reactions.getD [])).head? else none) with
+      | some e => some e.toErr
+      | none =>
+        if (!b.ignoreUnused && sys.uniqueNames.any fun s => !(speciesUsed (b.reactions.getD [])).contains s)
+        then some (.sys catBuilder 1)
+        else match (unknownIn sys.uniqueNames (b.reactions.getD [])).head? with
+          | some e => some e.toErr
+          | none =>
+            if (tolAssigns sys).all (fun kv => sys.uniqueNames.contains kv.1) then none else some .outOfRange
+
+theorem psBuild_outcome {m : NameMap} {names : List String} (hk : ∀ k, k ∈ nmKeys m ↔ k ∈ names)
+    (procs : List (Process α)) :
+    match (unknownIn names procs).head? with
+    | some e => ProcessSet.build procs m = .error e
+    | none => ∃ t, ProcessSet.build procs m = .ok t := by
+  rw [← unknownNames_eq_unknownIn hk]
+  cases h : (unknownNames m procs).head? with
+  | some e =>
+    exact (ProcessSet.build_error_iff m procs e).2 ((buildForcing_error_iff m procs e).2 h)
+  | none =>
+    have : unknownNames m procs = [] := List.head?_eq_none_iff.1 h
+    exact (ProcessSet.build_isOk_iff m procs).2 ((buildForcing_isOk_iff m procs).2 this)
+
+theorem getSpeciesMap_outcome (sys : SystemDecl α) (procs : List (Process α)) (reorder : Bool)
+    (h0 : sys.stateSize ≠ 0) :
+    match (if reorder then (unknownIn sys.uniqueNames procs).head? else none) with
+    | some e => getSpeciesMap sys procs reorder = .error e.toErr
+    | none => ∃ m, getSpeciesMap sys procs reorder = .ok m := by
+  cases reorder with
+  | false => exact ⟨_, getSpeciesMap_false sys procs⟩
+  | true =>
+    simp only [if_true]
+    have := psBuild_outcome (mem_nmKeys_nmOfNames sys.uniqueNames) procs
+    rw [getSpeciesMap_true]
+    cases hh : (unknownIn sys.uniqueNames procs).head? with
+    | some e =>
+      rw [hh] at this
+      simp only [] at this ⊢
+      rw [this]
+    | none =>
+      rw [hh] at this
+      obtain ⟨t, ht⟩ := this
+      simp only []
+      rw [ht]
+      obtain ⟨perm, hm, -, -⟩ := markowitz_perm sys.stateSize (jacPattern sys.stateSize t) (by omega)
+      simp only [hm]
+      exact ⟨_, rfl⟩
+
+theorem setAbsoluteTolerances_outcome [OfNat α 0] (dflt : α) (sys : SystemDecl α) {m : NameMap}
+    (hk : ∀ k, k ∈ nmKeys m ↔ k ∈ sys.uniqueNames) :
+    if (tolAssigns sys).all (fun kv => sys.uniqueNames.contains kv.1) then
+      ∃ a, setAbsoluteTolerances dflt sys m = .ok a
+    else setAbsoluteTolerances dflt sys m = .error .outOfRange := by
+  rw [setAbsoluteTolerances_eq]
+  have hiff := applyTol_isOk_iff m (Array.replicate m.length dflt) (tolAssigns sys)
+  split
+  · rename_i h
+    apply hiff.2
+    intro kv hkv
+    rw [hk]
+    simpa using (List.all_eq_true.1 h) kv hkv
+  · rename_i h
+    cases hr : applyTol m (Array.replicate m.length dflt) (tolAssigns sys) with
+    | error e => rw [applyTol_error hr]
+    | ok r =>
+      exfalso
+      apply h
+      rw [List.all_eq_true]
+      intro kv hkv
+      have := hiff.1 ⟨r, hr⟩ kv hkv
+      rw [hk] at this
+      simpa using this
+
+/-- `build` against its outcome function -/
+theorem build_outcome [OfNat α 0] (dflt : α) (labelsOf : List (Process α) → List String) (b : BuildInput α) :
+    match buildOutcome b with
+    | some e => build dflt labelsOf b = .error e
+    | none => ∃ r, build dflt labelsOf b = .ok r := by
+  rw [build_eq]
+  unfold buildOutcome
+  cases b.system with
+  | none => rfl
+  | some sys =>
+    simp only []
+    by_cases h1 : (b.reactions.getD []).isEmpty = true
+    · simp only [h1, if_true]
+    · simp only [h1, Bool.false_eq_true, if_false]
+      by_cases h2 : sys.stateSize = 0
+      · simp only [h2, if_true]
+      · simp only [h2, if_false]
+        have hg := getSpeciesMap_outcome sys (b.reactions.getD []) b.reorder h2
+        cases hu : (if b.reorder = true then (unknownIn sys.uniqueNames (b.reactions.getD [])).head? else none) with
+        | some e =>
+          rw [hu] at hg
+          simp only [] at hg ⊢
+          rw [hg]
+        | none =>
+          rw [hu] at hg
+          obtain ⟨m, hm⟩ := hg
+          have hk := getSpeciesMap_ok_keys hm
+          simp only [hm]
+          generalize (!b.ignoreUnused && sys.uniqueNames.any fun s => !(speciesUsed (b.reactions.getD [])).contains s) = u
+          cases u with
+          | true => simp only [if_true]
+          | false =>
+            simp only [Bool.false_eq_true, if_false]
+            have hp := psBuild_outcome hk (b.reactions.getD [])
+            cases hu2 : (unknownIn sys.uniqueNames (b.reactions.getD [])).head? with
+            | some e =>
+              rw [hu2] at hp
+              simp only [] at hp ⊢
+              rw [hp]
+            | none =>
+              rw [hu2] at hp
+              obtain ⟨t, ht⟩ := hp
+              simp only [ht]
+              have hs := setAbsoluteTolerances_outcome dflt sys hk
+              generalize ((tolAssigns sys).all fun kv => sys.uniqueNames.contains kv.1) = c at hs ⊢
+              cases c with
+              | true =>
+                simp only [if_true] at hs ⊢
+                obtain ⟨a, ha⟩ := hs
+                simp only [ha]
+                exact ⟨_, rfl⟩
+              | false =>
+                simp only [Bool.false_eq_true, if_false] at hs ⊢
+                simp only [hs]
+
+/-- what a successful `build` went through -/
+theorem build_ok_fields [OfNat α 0] {dflt : α} {labelsOf : List (Process α) → List String} {inp : BuildInput α}
+    {b : Built α} (h : build dflt labelsOf inp = .ok b) :
+    ∃ sys, inp.system = some sys ∧ (inp.reactions.getD []).isEmpty = false ∧ sys.stateSize ≠ 0 ∧
+      getSpeciesMap sys (inp.reactions.getD []) inp.reorder = .ok b.speciesMap ∧
+      ProcessSet.build (inp.reactions.getD []) b.speciesMap = .ok b.tables ∧
+      setAbsoluteTolerances dflt sys b.speciesMap = .ok b.atol ∧
+      b.variableNames = ((List.range sys.stateSize).map fun i => ((b.speciesMap.find? (·.2 == i)).map (·.1)).getD "") ∧
+      b.nSpecies = sys.stateSize ∧ b.nonZero = b.tables.nonZeroJacobianElements ∧
+      b.labels = labelsOf (inp.reactions.getD []) := by
+  rw [build_eq] at h
+  cases hs : inp.system with
+  | none => rw [hs] at h; cases h
+  | some sys =>
+    rw [hs] at h
+    simp only [] at h
+    refine ⟨sys, rfl, ?_⟩
+    cases h1 : (inp.reactions.getD []).isEmpty with
+    | true => rw [h1] at h; cases h
+    | false =>
+      simp only [h1, Bool.false_eq_true, if_false] at h
+      by_cases h2 : sys.stateSize = 0
+      · rw [if_pos h2] at h; cases h
+      · rw [if_neg h2] at h
+        cases hg : getSpeciesMap sys (inp.reactions.getD []) inp.reorder with
+        | error e => rw [hg] at h; cases h
+        | ok m =>
+          rw [hg] at h
+          simp only [] at h
+          split at h
+          · cases h
+          · cases hp : ProcessSet.build (inp.reactions.getD []) m with
+            | error e => rw [hp] at h; cases h
+            | ok t =>
+              rw [hp] at h
+              simp only [] at h
+              cases ha : setAbsoluteTolerances dflt sys m with
+              | error e => rw [ha] at h; cases h
+              | ok atol =>
+                rw [ha] at h
+                cases h
+                exact ⟨rfl, h2, rfl, hp, ha, rfl, rfl, rfl, rfl⟩
+
+end Build
+
 end Micm
